@@ -6,6 +6,7 @@
   Only the `*_nf` lemmas look at the generated text.
 -/
 import UnifexModel.Proto.FindIf
+import UnifexModel.Lemmas.BulkLoop
 
 namespace Unifex.Lemmas.FindIfTiles
 open Unifex.Generated.FindIfChunks Unifex.Proto.FindIf Unifex.Proto
